@@ -112,7 +112,7 @@ def run(tier, seed):
     res.coverage.update({
         "evaluations": n_eval,
         "distinct_nontrivial": summary["distinct_nontrivial"],
-        "rule": "plays: quick = a greedy 3-way covering array of {-k} x {--clear} x {--disable-plots} x {-q} x {fouled (by an auditor or by a failing action), clean} x {'.', out, a/b/out, absolute (with a blank)} x {repeat section, none} (every triple of factor values occurs; the seed changes the rows), thorough = all 256; plus 4 --upload-url plays with a fake scp, one probing an output directory with a blank, 6 plays (24 thorough) that follow an earlier run into the same output directory one second before (erased by --clear, deleted by hand, or kept) and 2 (8) whose repeat section is never reached because a failing action fouls act 1 (plots on). The `mk` action of every play leaves editor temporaries (copy.txt~ from cp -b, notes~, #edit#, #half~), a directory old~ with a file, a fifo, and symbolic links to a directory, to a regular file, to the fifo, to nowhere, to /etc and to itself, and writes a file into $HOME and a directory into ../ (both directly under artifacts/); in a third of the plays it also creates <run dir>/plots itself and puts a file there (plot.gp and runme.gp must still be generated when plots are enabled, and no *.gp under --disable-plots); besides `every named path exists` the oracle now asks that every file left in the run directory (but index.html / upload.log, written later, and editor temporaries / fifos, which an interrupted play leaves behind unnamed because it skips the upload step) is named. trees: 150 (2000) generated directory trees (names a.txt b~ #c# #d~ e# # ~ h~x j#~ ..., directories d~ #g# ..., regular files, symbolic links (dangling, to the containing directory, to a sibling file, to a file / directory / fifo outside the tree, to themselves), fifos in a third of them) through the real collectArtifacts and removeNonUploadableFiles (hook VerifArtifacts). 3 (12) plays are cut short by SIGINT / SIGTERM / SIGHUP sent to the shakespeare process while an action runs (treated as fouled: exit 1, Foul, artifacts kept); $GNUPLOT points at nothing, at a stand-in that, like gnuplot, opens the script, creates the `set output` files and looks up `load`ed scripts relative to its working directory (its outputs must land in <run>/plots and nowhere else), or at a program that exits 1 (4 (16) dedicated plays plus a random choice in the matrix): no effect on how a play ends. duos: 2+2 (6+6) pairs of plays into one output directory: started within the same second (the second must be refused, the first keeps its own result.js / artifacts / exit status) and overlapping (a long clean --clear play must leave the later play's `latest` alone). Fouls are by an auditor, by a failing action in the last (repeated) act, or by one in act 1. Spotlights emit an instant far in the future and (3 of 4) one in the past, so MinTime < 0 < 1 < MaxTime. links: the real prepareDirs for 13 forms of output directory (absolute, '.', relative, nested, './x', 'x/', 'a/../x', '../w2/x', 'a//b', with a blank, ...) x run ids (some without). ranges: lists of 0-8 instants (multiples of 1/1024 s in [-5 s, 12 s]) through the real assemble. paths: generated strings of up to 5 components from {a, b, .., ., '', 'c d', x.y, out, ...}. distinct_nontrivial = distinct plays (by factor values) + link forms + ranges of >= 2 instants.",
+        "rule": "plays: quick = a greedy 3-way covering array of {-k} x {--clear} x {--disable-plots} x {-q} x {fouled (by an auditor or by a failing action), clean} x {'.', out, a/b/out, absolute (with a blank)} x {repeat section, none} (every triple of factor values occurs; the seed changes the rows), thorough = all 256; plus 4 --upload-url plays with a fake scp, one probing an output directory with a blank, 6 plays (24 thorough) that follow an earlier run into the same output directory one second before (erased by --clear, deleted by hand, or kept) and 2 (8) whose repeat section is never reached because a failing action fouls act 1 (plots on). The `mk` action of every play leaves editor temporaries (copy.txt~ from cp -b, notes~, #edit#, #half~), a directory old~ with a file, a fifo, and symbolic links to a directory, to a regular file, to the fifo, to nowhere, to /etc and to itself, and writes a file into $HOME and a directory into ../ (both directly under artifacts/); in a third of the plays it also creates <run dir>/plots itself and puts a file there (plot.gp and runme.gp must still be generated when plots are enabled, and no *.gp under --disable-plots); besides `every named path exists` the oracle now asks that every file left in the run directory (but index.html / upload.log, written later, and editor temporaries / fifos, which an interrupted play leaves behind unnamed because it skips the upload step) is named. trees: 150 (2000) generated directory trees (names a.txt b~ #c# #d~ e# # ~ h~x j#~ ..., directories d~ #g# ..., regular files, symbolic links (dangling, to the containing directory, to a sibling file, to a file / directory / fifo outside the tree, to themselves), fifos and UNIX sockets in a third of them) through the real collectArtifacts and removeNonUploadableFiles (hook VerifArtifacts). 3 (12) plays are cut short by SIGINT / SIGTERM / SIGHUP sent to the shakespeare process while an action runs (treated as fouled: exit 1, Foul, artifacts kept); $GNUPLOT points at nothing, at a stand-in that, like gnuplot, opens the script, creates the `set output` files and looks up `load`ed scripts relative to its working directory (its outputs must land in <run>/plots and nowhere else), or at a program that exits 1 (4 (16) dedicated plays plus a random choice in the matrix): no effect on how a play ends. duos: 2+2 (6+6) pairs of plays into one output directory: started within the same second (the second must be refused, the first keeps its own result.js / artifacts / exit status) and overlapping (a long clean --clear play must leave the later play's `latest` alone). The audience of every play also computes a variable and watches it (csv file without an actor part, named in plot.gp). Fouls are by an auditor, by a failing action in the last (repeated) act, or by one in act 1. Spotlights emit an instant far in the future and (3 of 4) one in the past, so MinTime < 0 < 1 < MaxTime. links: the real prepareDirs for 13 forms of output directory (absolute, '.', relative, nested, './x', 'x/', 'a/../x', '../w2/x', 'a//b', with a blank, ...) x run ids (some without). ranges: lists of 0-8 instants (multiples of 1/1024 s in [-5 s, 12 s]) through the real assemble. paths: generated strings of up to 5 components from {a, b, .., ., '', 'c d', x.y, out, ...}. distinct_nontrivial = distinct plays (by factor values) + link forms + ranges of >= 2 instants.",
         "samples": summary["samples"],
         "distribution": {k: summary[k] for k in ("clean", "join", "abs", "link", "range", "plays", "tree", "trees_with_a_fifo", "duos", "duos_with_the_planned_timing", "play_distribution", "link_hook_errors")},
         "traces_validated_against_impl": summary["plays"],
